@@ -1,6 +1,7 @@
 package main
 
 import (
+	"strings"
 	"fmt"
 	"go/constant"
 	"go/token"
@@ -635,6 +636,37 @@ func (e *FnExec) unop(st *State, x *ssa.UnOp) {
 	case token.ARROW:
 		e.note("channel receive at %s: received value unconstrained", e.pos(x.Pos()))
 		e.setFresh(st, x, "chan recv")
+		// opt nonnilrecv=<param>[,<param>]: what arrives on that channel parameter is never nil
+		// (an assumption about the sender, listed in the evidence)
+		if e.con != nil && e.con.Opts["nonnilrecv"] != "" {
+			cname := ""
+			switch c := x.X.(type) {
+			case *ssa.Parameter:
+				cname = c.Name()
+			case *ssa.UnOp:
+				if a, ok := c.X.(*ssa.Alloc); ok {
+					cname = a.Comment
+				}
+			}
+			for _, want := range strings.Split(e.con.Opts["nonnilrecv"], ",") {
+				if want == cname && cname != "" {
+					v := e.vals[x]
+					var val, ok *Term
+					if len(v.Tuple) == 2 {
+						val, ok = v.Tuple[0].T, v.Tuple[1].T
+					} else {
+						val, ok = v.T, True
+					}
+					if val != nil && val.Sort == "Iface" {
+						e.addFact(st, Imp(ok, Neq(ITag(val), IntLit(0))))
+						e.assumed["values received from channel parameter "+cname+" are non-nil (opt nonnilrecv)"]++
+					} else if val != nil && val.Sort == "Loc" {
+						e.addFact(st, Imp(ok, Neq(val, NilLoc)))
+						e.assumed["values received from channel parameter "+cname+" are non-nil (opt nonnilrecv)"]++
+					}
+				}
+			}
+		}
 	default:
 		e.unsupported("unary op %s", x.Op)
 	}
